@@ -96,5 +96,5 @@ def run_exhaustive_job(rec, job: dict, judge, *, failing: bool = False, cached: 
                             yield {**sp, 'pre_cached': list(pre), 'lab': {**sp['lab'], 'storage': 'local', 'bust_cache': bust}}
         it = gen()
     else:
-        it = exhaustive.small_specs(3 if q else 4, types=('N1', 'N2', 'NN'))
-    exhaustive.run_exhaustive(rec, 'exhaustive-small', it, judge, job['shard'], job['shards'], idle_rounds=1)
+        it = exhaustive.small_specs(3 if q else 4, types=('N1', 'NN') if q else ('N1', 'N2', 'NN'))
+    exhaustive.run_exhaustive(rec, 'exhaustive-small', it, judge, job['shard'], job['shards'], idle_rounds=0 if q else 1)
